@@ -353,8 +353,8 @@ type c32Plan struct {
 func c32Plans(r *vmc.Result) []c32Plan {
 	if r.Thorough() {
 		return []c32Plan{
-			{"dup-on-live", 2, 2}, {"flap-wr-min", 2, 2}, {"flap-rd-min", 2, 2}, {"flap-clk-min", 2, 2}, {"flap-rd+wr-min", 2, 1},
-			{"dial+accept", 1, 2}, {"flap-wr", 1, 2}, {"flap-rd", 1, 2}, {"flap-clk", 1, 2}, {"flap-rd+wr", 0, 1}, {"flap-wr-2", 0, 2},
+			{"dup-on-live", 2, 2}, {"flap-wr-min", 2, 2}, {"flap-rd-min", 2, 2}, {"flap-clk-min", 2, 2}, {"flap-rd+wr-min", 2, 2},
+			{"dial+accept", 2, 2}, {"flap-wr", 1, 2}, {"flap-rd", 1, 2}, {"flap-clk", 1, 2}, {"flap-rd+wr", 1, 2}, {"flap-wr-2", 0, 2},
 		}
 	}
 	return []c32Plan{
